@@ -582,6 +582,7 @@ def rule_mode_independence(rep: Report, repo: Repo, rule: str) -> None:
         return any((isinstance(x, ast.Name) and x.id in dm.out_aliases) or is_output_dir_expr(x) for x in ast.walk(e))
     n = 0
     lists = (dm.dirs_var, dm.files_var)
+    decisions: List[Tuple[str, list]] = []
     for node in walk_no_nested(dm.walk):
         what = None
         if isinstance(node, (ast.Continue, ast.Break)):
@@ -601,6 +602,14 @@ def rule_mode_independence(rep: Report, repo: Repo, rule: str) -> None:
         n += 1
         gs = [g for g in guards_of(dm.fn, node, dm.parents) if any(g.test is x for x in ast.walk(dm.walk))]
         dep = [g for g in gs if mentions_out(g.test)]
+        decisions.append((what, dep))
+    for what, dep in decisions:
+        if dep:
+            # the same decision taken under the complementary condition as well is no dependence on the mode
+            twin = any(w2 == what and d2 and norm(d2[0].test) == norm(dep[0].test) and d2[0].polarity != dep[0].polarity
+                       for w2, d2 in decisions)
+            if twin:
+                dep = []
         rep.check(not dep, rule, where, what,
                   f"`{what}` happens only under a condition on the output directory (`{norm(dep[0].test)[:60] if dep else ''}`): the set of "
                   f"processed directories differs between stdout mode and -o mode",
@@ -677,6 +686,23 @@ ORDER_SENSITIVE_CALLS = {"list", "tuple", "enumerate", "str", "repr", "print", "
 ORDER_FREE_CALLS = {"sorted", "len", "any", "all", "min", "max", "sum", "set", "frozenset", "bool", "isinstance"}
 
 
+def _order_free_body(stmts) -> bool:
+    """A loop body whose effect does not depend on the iteration order: only set insertions, flag assignments of constants,
+    `continue`, and `if`s over such statements."""
+    for st in stmts:
+        if isinstance(st, ast.Expr) and isinstance(st.value, ast.Call) and isinstance(st.value.func, ast.Attribute) \
+                and st.value.func.attr in ("add", "discard", "update"):
+            continue
+        if isinstance(st, ast.Assign) and isinstance(st.value, ast.Constant) and all(isinstance(t, ast.Name) for t in st.targets):
+            continue
+        if isinstance(st, (ast.Continue, ast.Pass)):
+            continue
+        if isinstance(st, ast.If) and _order_free_body(st.body) and _order_free_body(st.orelse):
+            continue
+        return False
+    return True
+
+
 def _set_order_hits(fn, parents) -> List[Tuple[ast.expr, str]]:
     names: Set[str] = set()
     for _ in range(3):
@@ -695,7 +721,8 @@ def _set_order_hits(fn, parents) -> List[Tuple[ast.expr, str]]:
     for n in ast.walk(fn):
         cands: List[Tuple[ast.expr, str]] = []
         if isinstance(n, (ast.For, ast.AsyncFor)):
-            cands.append((n.iter, "for loop"))
+            if not _order_free_body(n.body + n.orelse):
+                cands.append((n.iter, "for loop"))
         elif isinstance(n, (ast.ListComp, ast.GeneratorExp, ast.DictComp)):
             par = parents.get(n)
             free = isinstance(par, ast.Call) and call_name(par) in ORDER_FREE_CALLS
